@@ -21,7 +21,7 @@ ASSUMPTIONS = ['refmodel/vector.py (independent interpreters), refmodel/colors.p
 REQUIRED = ['evaluations', 'documents_checked', 'kind:svg', 'kind:eps', 'kind:pdf', 'kind:tex', 'fractional_scale', 'scale_below_1',
             'with_background', 'svg_group_transform']
 TIMEOUT = {'quick': 3600, 'thorough': 21600}
-SCALES = [0.5, 0.7, 1, 1, 2, 2.5, 3.3, 10, 4, 0.25, 1.5, 7.75]
+SCALES = [0.5, 0.7, 1, 1, 2, 2.5, 3.3, 10, 4, 0.25, 1.5, 7.75, 0.1 + 0.2, 1 / 3, 0.001, 1234.5678, 2.0000000000000004, 1e-05, 100]
 
 
 def col(rng, alpha=False, none=False):
